@@ -12,8 +12,9 @@ STATS = G.STATS
 PARTIAL = [
     "proved: curves, every order (curve_derivatives_are_true_derivatives); surfaces, every mixed order as partial derivatives of the bivariate span polynomial in Mathlib's F[X][Y] (surface_derivatives_are_true_mixed_derivatives; with SurfaceEvaluator2 only k+l <= order is computed, the rest is left zero); the list models of A4.2 and A4.4 solve the (bivariate) Leibniz system, whose solution is unique; end to end for NURBS curves and surfaces with positive weights, through the library's span search, at every parameter of the closed domain (rational_curve_derivatives_leibniz_of_true_derivatives, rational_surface_derivatives_leibniz_on_domain: row lengths of the derivative table and positivity of the weight polynomial are derived from well-formedness, no hypothesis on the table is left); A2.3 transcribed statement by statement (basisFunsDersA23, stream bders23) equals the specification table basisDers = derivatives of the basis polynomials, and does not divide by zero under the span guard",
     "proved (loops as coded, each transcription compared with the real function by its own stream): A3.2 CurveEvaluator.derivatives (curveDersA32, stream cders32), A3.6 SurfaceEvaluator.derivatives (surfaceDersA36, stream sders36: temp array, dd = min(deriv_order, d[1]) - equals the tensor-formula table, all k <= du, l <= dv filled), A3.7 helpers.surface_deriv_cpts after the fix a380c58 (surfaceDerivCptsA37, stream sdcpts37: exactly which entries of PKL are assigned, their values as v-differences of u-differences, A3.8 reads assigned entries only) and A3.8 SurfaceEvaluator2.derivatives (surfaceDersA38, stream sders38: equals the triangular table) return the true (mixed) derivatives; rational surfaces with the default evaluator as coded solve the Leibniz system of the true derivatives",
-    "proved (hodographs): derivative_curve (derivativeCurve, stream hodoc: control points PK[1], knot vector U[1:-1], degree p-1) evaluated on the shifted span is the first derivative, also through the library's own span search (the span found on U[1:-1] is the original span minus one); the three surfaces of derivative_surface (derivativeSurface, stream hodos) evaluated on the shifted span pairs are S_u, S_v, S_uv; tangent = (point, first derivatives), normal = cross product of the TRUE first partial derivatives (streams tanc / tans / nrms, single and list variants)",
-    "not proved: that the quotient A/w of two polynomials has the derivatives returned by A4.2/A4.4 is stated through the Leibniz system and its uniqueness, not through a derivative of rational functions; hodograph theorems are about the data handed to the setters of the new object: the knot vector setter re-normalises U[1:-1] when it does not span [0,1] (unclamped input, or a fresh object for a curve built with normalize_kv=False) - a reparametrisation outside the statement (the oracle maps the parameter affinely); the ZeroDivisionError of the hodograph constructors on knots of high multiplicity (F-02b for surfaces) is a guard of the driver op, not of the theorems (the model's x/0 = 0 is never read on the span the theorem speaks about)",
+    "proved (hodographs; hypotheses of every hodograph theorem = guards of the driver ops: degree >= 2 in each differentiated direction, derivCptsDivisorsOk = no ZeroDivisionError (F-02b for surfaces)): the DATA handed to the setters - derivative_curve (derivativeCurve, stream hodoc: control points PK[1], knot vector U[1:-1], degree p-1) evaluated on the shifted span is the first derivative, also through the library's own span search (the span found on U[1:-1] is the original span minus one); the three surfaces of derivative_surface (derivativeSurface, stream hodos) evaluated on the shifted span pairs and through their own span searches are S_u, S_v, S_uv; the OBJECTS the constructors return (knot vectors after the normalising setter, knotNormalize / surfDataNormalize as the driver prints them): when U[1:-1] spans [0,1] (clamped shape on [0,1], the default) the stored curve / three stored surfaces evaluated at the SAME parameter(s) on the closed domain are the derivatives (hodograph_curve_object_is_first_derivative, hodograph_surface_objects_are_partial_derivatives); for any knot vector they are the derivatives at the affinely mapped parameter (u - U[1]) / (U[-2] - U[1]) (hodograph_*_reparametrised) - at the same parameter they are NOT (finding F-02c, in-file example on an unclamped knot vector)",
+    "proved (through the span search, closed domain, what the ops cders32 / sders36 / tanc / tans / nrms run): A3.2 and A3.6 as coded on the span(s) find_span_linear returns; rational curves and surfaces with the default evaluator as coded (A3.2 / A3.6 on the homogeneous net, then A4.2 / A4.4) solve the Leibniz system of the true derivatives with positive weight polynomial; tangent of a non-rational curve / surface = (point, first derivative(s)), tangent of a rational CURVE = (A/w, quotient rule), normal of a non-rational 3-D surface = cross product of the TRUE first partial derivatives (streams tanc / tans / nrms, single and list variants); the values of every PKL entry A3.7 assigns (a37_as_coded_entry_values)",
+    "not proved: that the quotient A/w of two polynomials has the derivatives returned by A4.2/A4.4 is stated through the Leibniz system and its uniqueness, not through a derivative of rational functions; tangent / normal of a RATIONAL SURFACE have no theorem of their own (their vectors are entries [0][0], [1][0], [0][1] of the table characterised by rational_surface_derivatives_as_coded_on_domain); normalize=True variants: only the model of vector_normalize; A3.6 and A3.8 agree only on k + l <= order (the rest of the A3.8 table is zero)",
     "tangent / normal: orthogonality of the cross product to both first-derivative vectors and squared length 1 of v/mag whenever mag*mag = |v|^2 are proved for the models of vector_cross / vector_normalize; the floating-point sqrt and the 18-decimals rounding of vector_normalize are outside (checked in the oracle to 1e-12)",
 ]
 
